@@ -477,7 +477,9 @@ func c03Gen(c *core.Ctx) {
 	// backquote closes nothing else, and what it leaves open stays an error
 	for _, src := range []string{"`f(` { a; } )\n", "x=`f(`\n{ a; } )\n", "echo `f(` { a; } ) b\n", "$(echo `f(` { a; } ))\n", "`f(` )\n", "`f (` ) { a; }\n", "`(` a )\n", "`( a` )\n",
 		"`{` a; }\n", "`{ a;` }\n", "`if a; then` b; fi\n", "`while a; do` b; done\n", "`case x in` a) b;; esac\n", "`case x in a` ) b;; esac\n", "`for i in` a; do b; done\n", "`a |` b\n", "`a &&` b\n",
-		"echo \"`f(`\" { a; } )\n", "echo ${x:-`f(`} { a; } )\n", "`f(` `)` { a; }\n"} {
+		"echo \"`f(`\" { a; } )\n", "echo ${x:-`f(`} { a; } )\n", "`f(` `)` { a; }\n",
+		// a name does not begin with a digit, whatever its script
+		"for ٣ in a; do :; done\n", "for ٣x in a; do :; done\n", "for １x in a; do :; done\n", "٣() { :; }\n", "１x() { :; }\n", "for 9x in a; do :; done\n", "for x- in a; do :; done\n", "for é* in a; do :; done\n", "x.y() { :; }\n"} {
 		core.Do(c, c03Case{Raw: src, Kind: "rejected"}, c03Exec)
 	}
 	// 1b. prefixes of programs that end inside a here-document body
